@@ -231,6 +231,22 @@ func execEncGate(args []string) string {
 	}
 	w := &memWriterAt{}
 	enc := encoder.New(w, encoder.WithProtocolVersion(proto.Version(ver)), encoder.WithMessageValidator(mv))
+	// The model judges every Encode as if the encoder were fresh (gateBatch starts from the empty validator
+	// state). Two thirds of the lines therefore run on a USED encoder: one earlier Encode of a file that
+	// declares developer data ids 0..2 and fields (i, 0..2) and then either succeeds or fails validation half
+	// way. Nothing of it may be visible afterwards (seeded change C10-2: validator state surviving a failed Encode).
+	h := 0
+	for _, a := range args {
+		for i := 0; i < len(a); i++ {
+			h = (h*31 + int(a[i])) & 0xffffff
+		}
+	}
+	if k := h % 3; k != 0 {
+		func() {
+			defer func() { recover() }()
+			_ = enc.Encode(encgatePoison(k == 2))
+		}()
+	}
 	fit := &proto.FIT{FileHeader: proto.FileHeader{ProtocolVersion: proto.Version(hdr)}, Messages: msgs}
 	if err := enc.Encode(fit); err != nil {
 		return errKind(err)
@@ -240,6 +256,38 @@ func execEncGate(args []string) string {
 		out = append(out, printMessage(&fit.Messages[i]))
 	}
 	return "ok:" + strings.Join(out, ",")
+}
+
+// encgatePoison is the file a used encoder has seen before: developer data ids 0..2, field descriptions
+// (i, 0..2) of base type uint8, one record using them; with fail the last message cannot be validated
+// (a 300-byte string) so that Encode returns on the error path of validateMessages.
+func encgatePoison(fail bool) *proto.FIT {
+	fac := factory.StandardFactory()
+	mk := func(num typedef.MesgNum, vals map[byte]any) proto.Message {
+		m := proto.Message{Num: num}
+		for n := 0; n < 256; n++ {
+			if v, ok := vals[byte(n)]; ok {
+				m.Fields = append(m.Fields, fac.CreateField(num, byte(n)).WithValue(v))
+			}
+		}
+		return m
+	}
+	fit := &proto.FIT{FileHeader: proto.FileHeader{ProtocolVersion: proto.V2}}
+	fit.Messages = append(fit.Messages, mk(typedef.MesgNumFileId, map[byte]any{0: uint8(typedef.FileActivity)}))
+	for i := byte(0); i < 3; i++ {
+		fit.Messages = append(fit.Messages, mk(typedef.MesgNumDeveloperDataId, map[byte]any{3: i}))
+		for j := byte(0); j < 3; j++ {
+			fit.Messages = append(fit.Messages, mk(typedef.MesgNumFieldDescription, map[byte]any{
+				0: i, 1: j, 2: uint8(basetype.Uint8), 3: []string{"x"}}))
+		}
+	}
+	rec := mk(typedef.MesgNumRecord, map[byte]any{3: uint8(70)})
+	rec.DeveloperFields = append(rec.DeveloperFields, proto.DeveloperField{DeveloperDataIndex: 1, Num: 1, Value: proto.Uint8(5)})
+	fit.Messages = append(fit.Messages, rec)
+	if fail {
+		fit.Messages = append(fit.Messages, mk(typedef.MesgNumFileId, map[byte]any{8: strings.Repeat("a", 300)}))
+	}
+	return fit
 }
 
 func execStreamGate(args []string) string {
